@@ -456,14 +456,14 @@ func (g *genCfg) genMethodCase(id string) *Case {
 		outs = append(outs, typeOfRT(m.Type.Out(i)))
 	}
 	c.Sig = funcType(ins, outs, m.Type.IsVariadic())
-	recvs := []string{"ptr", "ptr", "val", "mvalue", "embedded", "sptr"}
+	recvs := []string{"ptr", "ptr", "val", "mvalue", "embedded", "sptr", "sptrmv"}
 	if c.Method == "String" {
 		recvs = append(recvs, "iface", "iface", "iface")
 	}
 	c.Recv = recvs[r.Intn(len(recvs))]
 	c.Ctx = g.genCtx(c.Sig)
 	g.genArgs(c)
-	if c.Ctx == "go" && (c.Method == "String" || c.Recv == "sptr") {
+	if c.Ctx == "go" && (c.Method == "String" || c.Recv == "sptr" || c.Recv == "sptrmv") {
 		c.Ctx = "stmt" // String is also called when values are rendered: it does not signal
 	}
 	for k, a := range c.Args {
@@ -480,7 +480,16 @@ func (g *genCfg) genMethodCase(id string) *Case {
 			c.Blank[i] = r.Intn(2) == 0
 		}
 	}
+	// the receiver variable gets another value between the evaluation of the method value / defer / go statement and the call
+	// (F07-15, repaired by 5c3ec57)
+	g.setRebind(c)
 	return c
+}
+
+// setRebind decides (again, after the receiver form or the context of a method case was changed) whether the receiver variable
+// is reassigned between the evaluation of the method value / defer / go statement and the call.
+func (g *genCfg) setRebind(c *Case) {
+	c.Rebind = c.Method != "String" && (c.Recv == "mvalue" || c.Recv == "ptr" && (c.Ctx == "defer" || c.Ctx == "go")) && g.rng.Intn(2) == 0
 }
 
 // ---- variables ----
@@ -670,32 +679,19 @@ func isEmptyIfaceT(t *TypeD) bool { return t.isEmptyIface() }
 
 var classes = []classT{
 	{"method-value-variadic", func(c *Case) bool {
-		if c.Dir != "meth" || c.Recv != "mvalue" || !c.Sig.Variadic || len(c.Sig.In) < 2 {
+		// F07-3: the method value of a host value (also of a pointer the script made: sptrmv) whose variadic parameter is not the
+		// first one, called through callBin with a CONSTANT argument — an untyped constant, a constant conversion to a basic
+		// type, or, in a call with `...`, a literal nil: the constant is converted to the type of the wrong parameter
+		if c.Dir != "meth" || c.Recv != "mvalue" && c.Recv != "sptrmv" || !c.Sig.Variadic || len(c.Sig.In) < 2 {
 			return false
 		}
 		for k, f := range c.Forms {
-			// constants (untyped, or conversions of constants to a basic type) are converted to the parameter type
 			if (f == "const" || f == "lit") && paramTypeOf(c, k).Kind == KBasic {
 				return true
 			}
-		}
-		return false
-	}},
-	{"method-value-script-pointer", func(c *Case) bool { return c.Dir == "meth" && c.Recv == "sptrmv" }},
-	{"host-recv-rebound", func(c *Case) bool { return c.Dir == "meth" && c.Rebind }},
-	{"spread-nil-literal", func(c *Case) bool {
-		n := len(c.Args)
-		return (c.Dir == "s2h" || c.Dir == "meth") && c.Spread && n > 0 && c.Forms[n-1] == "const" && c.Args[n-1].Nil
-	}},
-	{"spread-via-func-value", func(c *Case) bool {
-		// `fv(cb, xs...)` where fv is a variable / parameter of a script-written function type holding a host function: `call`
-		// passes every argument raw when the call has an ellipsis; a fixed argument that needs preparation does not get it
-		if c.Dir != "s2h" || !viaCall(c) || !c.Spread || c.ArgSrc != "" {
-			return false
-		}
-		for k := 0; k < len(c.Args)-1; k++ {
-			a := c.Args[k]
-			if c.Forms[k] == "decl" || a.T.isHostIface() && a.Dyn != nil && a.Dyn.T.Decl == "script" {
+			if f == "const" && c.Spread {
+				// with `...` a literal nil as well: it is converted to the type picked for its position (the slice type for
+				// the argument before the spread one, the element type for the spread one)
 				return true
 			}
 		}
